@@ -114,4 +114,15 @@ theorem convertBase_digits_le (W B NB : Nat) (hB : 2 ≤ B) (hNB : 2 ≤ NB) (hn
       · simp only [hsmall, if_false] at h
         cases h
 
+/-- the same without excluding the same-base case (model as REQUIRED: the same-base result is rounded too) -/
+theorem convertBase_digits_le_all (W B NB : Nat) (hB : 2 ≤ B) (hNB : 2 ≤ NB) (m : Mode) (p : Nat) (hp : 1 ≤ p)
+    (r : FRepr) (res : Rounded FRepr) (h : convertBase W B NB m p r = .ok res) : res.1.digits NB ≤ p + 1 := by
+  by_cases hne : NB = B
+  · unfold convertBase at h
+    simp only [hne, if_true, ConvResult.ok.injEq] at h
+    subst h
+    have := reprRound_digits_le B hB m coarseNone p hp (FRepr.new B r.signif r.exp)
+    rw [hne]; omega
+  · exact convertBase_digits_le W B NB hB hNB hne m p hp r res h
+
 end Dashu.Model.Text
